@@ -79,6 +79,18 @@ CHECKS["C15"] = dict(
           "is refuted by the code and the model alike (known finding F13: conflicts with conservation)."),
     design="6/C15", technique="Coq proof over R (scatter/sum lemmas, field, induction on iterations) + vm_compute correspondence")
 
+CHECKS["C20"] = dict(
+    text=("(1) Theorem by induction over operation lists: in the state-machine model of TriaMesh/TetMesh objects every reachable state "
+          "(any history of orient_/refine_/rm_free_vertices_/normalize_/smooth_/normal_offset_, failing calls included) has its derived "
+          "adjacency equal to the one of a fresh object, hence every query agrees with a freshly constructed mesh; rm_free_vertices_ keeps "
+          "exactly the used vertices and preserves geometry. (2) Translator: harness/effects_extract.py regenerates from /repo's source "
+          "on every run the table of write effects of all 91 public functions; the Coq theorem C20_effects_table_ok (vm_compute + "
+          "soundness lemma) states that non-underscore functions write neither v/t of any mesh nor caller arrays nor call in-place "
+          "methods, that in-place methods re-initialise after their last element write, and that constructors copy. (3) Correspondence: "
+          "exhaustive op sequences up to length 2/3 on seed meshes, model vs implementation, plus live-vs-fresh query oracles and "
+          "before/after snapshots around every public function."),
+    design="6/C20", technique="Coq invariant proof over operation histories + AST translator re-checked by vm_compute + exhaustive short histories")
+
 NOT_YET = {}
 
 
